@@ -370,7 +370,7 @@ fn run_one(report: &Report, local: &mut Local, c: &Case) {
 // ------------------------------------------------------------------------------------------
 // random single operations (proptest, shrinkable)
 
-fn case_strategy(max_len: usize) -> impl Strategy<Value = Case> {
+pub fn case_strategy(max_len: usize) -> impl Strategy<Value = Case> {
     let kind = prop_oneof![Just(Kind::SliceWrite), Just(Kind::SliceRead), Just(Kind::BitsRead)];
     let form = prop_oneof![
         1 => Just(Form::Bit), 1 => Just(Form::All), 2 => Just(Form::Offset), 2 => Just(Form::Len), 6 => Just(Form::OffsetLen)
@@ -506,7 +506,7 @@ impl Op {
     }
 }
 
-fn op_strategy() -> impl Strategy<Value = Op> {
+pub fn op_strategy() -> impl Strategy<Value = Op> {
     let bytes = || proptest::collection::vec(any::<u8>(), 0..12usize);
     let scale = |x: u16, max: usize| ((x as usize) * (max + 1)) >> 16;
     prop_oneof![
@@ -709,6 +709,20 @@ pub fn run(ctx: Ctx) -> i32 {
     report.assumption("derived-length operations (write_bits_with_offset / read_bits_with_offset) are only called with offset <= 8*len (their length is 8*len - offset)");
     report.assumption("BitBuffer::from_bits is only given canonical input (exact length, zero padding)");
     report.assumption("nothing is asserted about buffer content or cursor of a slice after an operation returned Err (the property does not claim it); for BitBuffer the length/padding invariant is asserted after failed operations too ('always')");
+    // a raw libFuzzer input (timeout / out-of-memory artifacts have no decoded case)
+    if let Some(path) = &ctx.replay {
+        let j = read_replay(path);
+        if let Some(h) = j["case"]["fuzz_input"].as_str() {
+            report.eval(1);
+            match fuzz_one(&unhex(h)) {
+                None => println!("replay: case passes"),
+                Some((key, msg, case)) => {
+                    report.fail(&key, &msg, case);
+                }
+            }
+            return report.finish();
+        }
+    }
     if let Some(path) = &ctx.replay {
         let j = read_replay(path);
         let case = &j["case"];
@@ -757,4 +771,18 @@ pub fn run(ctx: Ctx) -> i32 {
         report.infra(&format!("generator fault: {} alignment classes never generated, e.g. {}", missing.len(), missing[0]));
     }
     report.finish()
+}
+
+
+/// fuzz entry (engine/fuzz bitops): the bytes drive the same strategies as the proptest tiers
+pub fn fuzz_one(data: &[u8]) -> Option<(String, String, J)> {
+    let (mode, rest) = data.split_first()?;
+    if mode & 1 == 0 {
+        let c = from_fuzz_bytes(&case_strategy(64), rest)?;
+        check_case(&c).err().map(|(k, m)| (k, m, json!({"type": "single", "op": c.to_json()})))
+    } else {
+        // one operation per 8-byte chunk
+        let ops = from_fuzz_chunks(&op_strategy(), rest, 40);
+        check_history(&ops).err().map(|(k, m)| (k, m, json!({"type": "history", "ops": ops.iter().map(Op::to_json).collect::<Vec<_>>()})))
+    }
 }
